@@ -16,13 +16,39 @@ const (
 	unicodeStd
 )
 
+// clusterWidth returns the number of columns a terminal shows a grapheme
+// cluster in which uniseg measured as w columns wide: a terminal gives a
+// character one column or two, uniseg has U+2E3A TWO-EM DASH three and U+2E3B
+// THREE-EM DASH four columns wide
+func clusterWidth(w int) int {
+	if w > 2 {
+		return 2
+	}
+	return w
+}
+
+// unicodeWidth is uniseg.StringWidth with every cluster measured the way a
+// terminal shows it
+func unicodeWidth(s string) int {
+	var (
+		state = -1
+		w     int
+		total int
+	)
+	for len(s) > 0 {
+		_, s, w, state = uniseg.FirstGraphemeClusterInString(s, state)
+		total += clusterWidth(w)
+	}
+	return total
+}
+
 func gwidth(s string, method graphemeWidthMethod) int {
 	switch method {
 	case noZWJ:
 		s = strings.ReplaceAll(s, "\u200D", "")
-		return uniseg.StringWidth(s)
+		return unicodeWidth(s)
 	case unicodeStd:
-		return uniseg.StringWidth(s)
+		return unicodeWidth(s)
 	default:
 		total := 0
 		for _, r := range s {
